@@ -20,6 +20,7 @@ type Env struct {
 	atEntry bool  // evaluating the verified function's own requires (ownership is granted, not derived)
 	now    *State // the state outside the innermost old(...)
 	qvars  map[string]bool
+	loop   *loopInfo // evaluating an invariant of this loop: same-named locals resolve to the one the loop assigns
 }
 
 func (g *Gen) newEnv(cur, old *State, pkg string) *Env {
@@ -61,6 +62,9 @@ func (g *Gen) autoLoad(env *Env, v *Val) *Val {
 }
 
 func (g *Gen) eval(env *Env, x *SExpr) *Val {
+	prevK := g.keySt
+	g.keySt = env.cur
+	defer func() { g.keySt = prevK }()
 	switch x.Op {
 	case "int", "char":
 		return intVal(smtInt(x.Int))
@@ -140,6 +144,14 @@ func (g *Gen) evalIdent(env *Env, x *SExpr) *Val {
 		if !(isParam && (env.now != nil || env.cur == g.entry)) {
 			if as := g.localsByName[x.Name]; len(as) > 0 {
 				a := as[0]
+				if env.loop != nil && len(as) > 1 {
+					for _, c := range as {
+						if env.loop.modVars[c] {
+							a = c
+							break
+						}
+					}
+				}
 				if g.escaping[a] {
 					p := g.vals[a]
 					if p == nil {
@@ -618,6 +630,14 @@ func (g *Gen) evalCall(env *Env, x *SExpr) *Val {
 			return boolVal(and(not(eq(m.S, "0")), sel(sel(g.heapSym(env.cur.heap, has), m.S), kt)))
 		}
 		return g.mapLoadValNoFacts(env.cur, vp, vt, m.S, kt)
+	case "mapHasKey":
+		m := g.eval(env, x.Args[0])
+		k := g.eval(env, x.Args[1])
+		if m.T == nil {
+			specErr(x, "untyped map")
+		}
+		has, _, _ := g.mapArrays(env.cur, m.T)
+		return boolVal(and(not(eq(m.S, "0")), sel(sel(g.heapSym(env.cur.heap, has), m.S), k.S)))
 	case "strkey":
 		a := g.eval(env, x.Args[0])
 		return intVal(g.strKey(a))
